@@ -144,7 +144,8 @@ def time_arith_prop(dt, n):
     """Dates with a time of day: (d + n) - n == d to the second."""
     d = _lit(dt)
     prog = (f"def d = {d}; def n = {n}; "
-            f"[string((d + n) - n), string(d + n), string(date(decimal(d)))]")
+            f"[string((d + n) - n), string(d + n), string(date(decimal(d))), "
+            f"(d + n) - d == n, string(date(int(d)))]")
     out = cklrun.run(prog, budget=20)
     if out[0] != "value":
         return Finding(f"C17|time-arith-{out[0]}",
@@ -159,10 +160,17 @@ def time_arith_prop(dt, n):
             return False
         return g == want
 
-    if not (isinstance(got, list) and len(got) == 3 and close(got[0], dt)
+    if not (isinstance(got, list) and len(got) == 5 and close(got[0], dt)
             and close(got[1], plus) and close(got[2], dt)):
         return Finding("C17|time-arith-differs",
                        f"d={dt} n={n}: got {got}")
+    if got[3] is not True:
+        return Finding("C17|time-arith-(d+n)-d",
+                       f"d={dt} n={n}: (d + n) - d == n is {got[3]!r}")
+    if not close(got[4], dt.replace(hour=0, minute=0, second=0)):
+        return Finding("C17|int-of-date-with-time",
+                       f"d={dt}: date(int(d)) is {got[4]}, the day of d is "
+                       f"{dt.date()}")
     return None
 
 
